@@ -8,6 +8,7 @@ package main
 
 import (
 	"fmt"
+	"github.com/ARM-software/golang-utils/utils/commonerrors"
 	"reflect"
 	"strings"
 	"time"
@@ -215,6 +216,7 @@ const (
 	styleOzzoField = 0 // ozzo ValidateStruct, error keyed by the Go field name (ErrorTag has no match)
 	styleOzzoTag   = 1 // ozzo ValidateStruct with validation.ErrorTag = "mapstructure" (as the library's tests do)
 	stylePlain     = 2 // plain error whose text names the field
+	styleCommonErr = 3 // an error of the library's own taxonomy, of another category than 'invalid' (a Validate which reports "undefined")
 )
 
 var (
@@ -240,6 +242,12 @@ func validateLevel(cfg config.Validator) error {
 		if curStyle == stylePlain {
 			if v.Field(i).IsZero() {
 				return fmt.Errorf("field %s must be set", f.Name)
+			}
+			continue
+		}
+		if curStyle == styleCommonErr {
+			if v.Field(i).IsZero() {
+				return commonerrors.Newf(commonerrors.ErrUndefined, "field %s must be set", f.Name)
 			}
 			continue
 		}
